@@ -2,6 +2,10 @@
 from ..combine import combined_spec
 
 SPEC = combined_spec("C10", ['c10_theta', 'c10_hll', 'c10_cpc', 'c10_quant', 'c10_count', 'c10_misc'], "C10")
+for _p in SPEC.parts():
+    # C10 itself says "a reader written only from the documentation recovers the content the API reports": the model of these parts IS that
+    # reader, run on bytes the implementation wrote, so an input on which the two disagree is an input on which the property fails
+    _p.divergence_is_property_failure = True
 CLAIM_TEXT = ('Documented cross-language layout: per family a kernel-checked `wire_consts_documented` (every constant, offset, flag bit, family/version id and size formula parameter regenerated from the current headers equals the hand-written documented value), field-offset theorems about `encode`, legacy-format theorems (Theta v1/v2, Tuple legacy, KLL v1, quantiles v1/v2, t-digest reference formats decode to the same content); every image of the committed baseline corpus (written from the pinned tree) and every shipped .sk file must decode to the recorded content on the current tree, and a documentation-only Lean reader must agree with the API on live images; MurmurHash3/XXHash64 are modelled bit-exactly and compared per input type. '
               + "Parts: " + " ".join(SPEC.claim_texts))
 CLAIM = dict(text=CLAIM_TEXT,
